@@ -1163,6 +1163,7 @@ class Registry:
                 req = zand(*[t for _, t in eng.spec_conj(c.requires, ps)] + [znot(t) for _, cond in c.raises for _, t in [(None, zand(*[t_ for _, t_ in eng.spec_conj([cond], ps)]))]])
                 ens = zand(*[t for _, t in eng.spec_conj(c.ensures, ps)])
                 eng.axioms_used[("pure", c.key)] = z3.ForAll(consts, z3.Implies(req, ens), patterns=[app]) if consts else z3.Implies(req, ens)
+                eng.__dict__.setdefault("axiom_defs", {})[("pure", c.key)] = fn.name()
             finally:
                 eng.bound, eng.spec, eng.qdepth, eng.result = saved_bound, saved_spec, saved_q, saved_res
         return V(c.returns, fn(*terms))
